@@ -80,11 +80,38 @@ def run(cmd, cwd=None, timeout=None, env=None, mem_gb=None, stdout_path=None):
 _LIVE = set()
 
 
+def _descendants(root):
+    kids = {}
+    for d in os.listdir('/proc'):
+        if not d.isdigit():
+            continue
+        try:
+            with open('/proc/%s/stat' % d) as f:
+                st = f.read()
+            ppid = int(st[st.rindex(')') + 2:].split()[1])
+            kids.setdefault(ppid, []).append(int(d))
+        except (OSError, ValueError):
+            continue
+    out, todo = [], [root]
+    while todo:
+        p = todo.pop()
+        for k in kids.get(p, []):
+            out.append(k)
+            todo.append(k)
+    return out
+
+
 def _kill_children(*_a):
     import signal
     for pid in list(_LIVE):
         try:
             os.killpg(pid, signal.SIGKILL)
+        except OSError:
+            pass
+    # worker processes of engine I's pool and anything else still below this check
+    for pid in _descendants(os.getpid()):
+        try:
+            os.kill(pid, signal.SIGKILL)
         except OSError:
             pass
 
